@@ -160,6 +160,9 @@ func c08MapperSpec(mp, code int) (int, bool) {
 	return 0, false
 }
 
+var c08ContentTypes = []string{"none", "application/json", "application/x-www-form-urlencoded", "text/plain; charset=utf-8", "application/octet-stream"}
+var c08Posts int
+
 func c08Err(code int) error {
 	if code < 0 {
 		return errors.New("verif: plain backend error")
@@ -447,7 +450,19 @@ func TestVerifC08(t *testing.T) {
 		}
 		var st int
 		var body string
+		// submissions arrive under whatever Content-Type the client's tool sends (curl -d: form-urlencoded); the answer depends
+		// on the body, never on that header
+		ctype := ""
+		if q.method == "POST" {
+			ctype = c08ContentTypes[c08Posts%len(c08ContentTypes)]
+			c08Posts++
+			out.Count("class:post-content-type:" + ctype)
+		}
 		pn := verifkit.Guard(func() {
+			if ctype != "none" {
+				vContentType = ctype
+			}
+			defer func() { vContentType = "" }()
 			w := vServe(li, ep, q.method, qv, q.body)
 			st, body = w.Code, w.Body.String()
 		})
@@ -483,6 +498,9 @@ func TestVerifC08(t *testing.T) {
 		out.Count("ep:" + ep)
 		// ---- the property itself
 		key := fmt.Sprintf("ep %s p1=%s p2=%s method=%s sign=%v | %s", ep, q.p1, q.p2, q.method, q.signOk, rep.desc)
+		if ctype != "" {
+			key += " content-type=" + ctype
+		}
 		if q.mp != 0 {
 			key = fmt.Sprintf("ErrorMapper#%d ", q.mp) + key
 		}
@@ -523,6 +541,10 @@ func TestVerifC08(t *testing.T) {
 			if st/100 != 4 || fl.Calls > 0 {
 				out.Fail(key, fmt.Sprintf("bad request answered %d, backend calls=%d", st, fl.Calls))
 			}
+		}
+		if valid && fl.Calls == 0 && (ep == "add-chain" || ep == "add-pre-chain") {
+			// whether a submission is looked at depends on its body alone
+			out.Fail(key, fmt.Sprintf("a well-formed submission was answered %d without the backend being asked", st))
 		}
 		if valid && fl.Calls > 0 && rep.fault(a, b) {
 			out.Count("class:fault-reply")
